@@ -3,13 +3,15 @@
 Copies a confirmed seeded change into /verif/seeded/<ID>_01 with meta.json (confirmation line + the check's verdict)."""
 import json, os, shutil, sys, re
 pid, out, clog, mut, cargs, what, needs, detected = sys.argv[1:9]
-dst = os.path.join(os.path.dirname(os.path.dirname(os.path.abspath(__file__))), "seeded", pid + "_01")
+no = os.environ.get("SEED_NO", "01")
+dst = os.path.join(os.path.dirname(os.path.dirname(os.path.abspath(__file__))), "seeded", pid + "_" + no)
 os.makedirs(dst, exist_ok=True)
 for f in os.listdir(out):
     if f.endswith((".diff", ".rs", ".md")):
         shutil.copy(os.path.join(out, f), dst)
-conf = [l.strip() for l in open(clog, errors="replace") if l.startswith("seed=%s " % pid)]
-mlog = "/var/tmp/mutants_%s.log" % mut.replace("m_", "")
+ckey = os.environ.get("CONF_KEY", pid)
+conf = [l.strip() for l in open(clog, errors="replace") if l.startswith("seed=%s " % ckey)]
+mlog = os.environ.get("MUT_LOG", "/var/tmp/mutants_%s.log" % mut.replace("m_", ""))
 lines = []
 if os.path.exists(mlog):
     lines = [l.rstrip()[:400] for l in open(mlog, errors="replace") if re.match(r"^(mutant=|VIOLATION|KNOWN-FINDING|INCONCLUSIVE|OK )", l)]
@@ -22,7 +24,7 @@ meta = {"property": pid, "what": what, "needs_to_manifest": needs,
         "origin": "independent sub-agent given only the property text and a scratch worktree",
         "confirmed_by_me": {"command": "tools/confirm_seed.sh (scratch worktree: existing suite with the change, demonstration with and without it)",
                             "result": conf[-1][:900] if conf else "see README.md"},
-        "check_run": {"command": "tools/mutant_run.sh %s seeded/%s_01/patch.diff %s %s  (patched copy of /repo)" % (mut, pid, pid, cargs),
+        "check_run": {"command": "tools/mutant_run.sh %s seeded/%s_%s/patch.diff %s %s  (patched copy of /repo)" % (mut, pid, no, pid, cargs),
                       "exit": ex, "output": lines},
         "detected_by": detected}
 json.dump(meta, open(os.path.join(dst, "meta.json"), "w"), indent=1)
